@@ -128,7 +128,7 @@ func URLToString(URL *url.URL) string {
 		// Do nothing. We don't want to encode the URL for signature purposes. :(
 		break
 	default:
-		URL.RawQuery = encodeQuery(URL.Query())
+		URL.RawQuery = encodeQuery(URL.RawQuery)
 	}
 
 	URL.Host, err = idna.ToASCII(URL.Host)
@@ -153,32 +153,58 @@ func URLToString(URL *url.URL) string {
 	return URL.String()
 }
 
-// Encode encodes the values into “URL encoded” form
-// from: https://cs.opensource.google/go/go/+/refs/tags/go1.23.1:src/net/url/url.go;l=1002
-// REASON: it has been modified to not sort
-func encodeQuery(v url.Values) string {
-	if len(v) == 0 {
+// encodeQuery re-encodes a raw query into "URL encoded" form, pair by pair
+// and in the textual order of the pairs.
+// REASON: url.Values is a map, so going through URL.Query() loses the order of
+// the pairs (and their grouping), and silently drops every pair that contains
+// a semicolon. Here the raw query is only split on '&': order, multiplicity,
+// valueless keys ("?a") and empty pieces are kept as they are.
+// A pair that is already in encoded form (printable ASCII that a WHATWG URL
+// parser leaves untouched in a query, with valid percent-escapes) is kept
+// verbatim, so the function is a fixpoint on its own output and on the href
+// that ada produces; anything else is unescaped and escaped again with
+// url.QueryEscape. A pair that cannot be unescaped is kept verbatim.
+func encodeQuery(rawQuery string) string {
+	if rawQuery == "" {
 		return ""
 	}
 
-	var buf strings.Builder
+	pairs := strings.Split(rawQuery, "&")
+	for i, pair := range pairs {
+		if isQueryEncoded(pair) {
+			continue
+		}
 
-	first := true
+		key, value, hasValue := strings.Cut(pair, "=")
 
-	for k, vs := range v {
-		keyEscaped := url.QueryEscape(k)
-		for _, v := range vs {
-			if !first {
-				buf.WriteByte('&')
-			}
+		key, err := url.QueryUnescape(key)
+		if err != nil {
+			continue
+		}
 
-			first = false
+		value, err = url.QueryUnescape(value)
+		if err != nil {
+			continue
+		}
 
-			buf.WriteString(keyEscaped)
-			buf.WriteByte('=')
-			buf.WriteString(url.QueryEscape(v))
+		pairs[i] = url.QueryEscape(key)
+		if hasValue {
+			pairs[i] += "=" + url.QueryEscape(value)
 		}
 	}
 
-	return buf.String()
+	return strings.Join(pairs, "&")
+}
+
+// isQueryEncoded reports whether s only holds bytes that a WHATWG URL parser
+// keeps as they are in the query of an http(s) URL
+func isQueryEncoded(s string) bool {
+	for i := 0; i < len(s); i++ {
+		switch c := s[i]; {
+		case c <= ' ', c >= 0x7f, c == '"', c == '#', c == '<', c == '>', c == '\'':
+			return false
+		}
+	}
+
+	return true
 }
